@@ -118,7 +118,7 @@ class _Parser(Generic[EXPR]):
         infix_op_names__curr_level = infix_ops__curr_level.keys()
         infix_ops__next_levels = infix_ops_levels[1:]
 
-        expression = self.parse_w_maybe_infix_ops(new_line_ignore is None,
+        expression = self.parse_w_maybe_infix_ops(new_line_ignore,
                                                   infix_ops__next_levels)
 
         if new_line_ignore is _NEXT_EXPR_ON_ANY_LINE:
